@@ -129,6 +129,7 @@ type Obs struct {
 	Text     map[string]any   `json:"text,omitempty"`
 	FS       map[string]any   `json:"fs,omitempty"`
 	HL       map[string]any   `json:"hl,omitempty"`
+	Lines    map[string]any   `json:"lines,omitempty"`
 
 	// not serialised: for replay files and finding matching
 	hist     []Cmd
